@@ -344,6 +344,17 @@ def rule_line_reset(ctx):
                         bs = byteset(mm, mm.expr_of_operand(t['args'][1]), f.consts)
                         if bs is not TOP and ord(';') in bs:
                             semis.append((mm, pt, t))
+                    elif c and c.get('local') and f.body(c.get('resolved') or c['path']) is not None:
+                        # a crate-local helper that writes ';' into the buffer it receives: the call is the write
+                        hb = f.body(c.get('resolved') or c['path'])
+                        if hb.key != m.key and hb.d['kind'] != 'Closure':
+                            for hm in [hb] + f.closures_of(hb):
+                                for hpt, ht in hm.calls():
+                                    hc = ht.get('callee')
+                                    if hc and hc['name'] in BYTE_SOURCES and len(ht['args']) == 2:
+                                        bs = byteset(hm, hm.expr_of_operand(ht['args'][1]), f.consts)
+                                        if bs is not TOP and ord(';') in bs and (mm, pt, t) not in semis:
+                                            semis.append((mm, pt, t))
             resets = [pt for pt, s in m.points() if s['k'] == 'assign' and s['p']['pr'] and isinstance(s['p']['pr'][-1], dict)
                       and s['p']['pr'][-1].get('n') == colf and s['r']['k'] == 'use' and s['r']['o']['k'] == 'const'
                       and s['r']['o'].get('int') == 0]
